@@ -5,6 +5,7 @@ import (
 	"go/types"
 	"sort"
 	"strings"
+	"time"
 
 	"golang.org/x/tools/go/ssa"
 
@@ -180,24 +181,31 @@ func init() {
 		Jobs: func(rc *RunCtx) []JobSpec {
 			var js []JobSpec
 			names := CommandNames(rc.Ld)
-			ma := "3"
+			ma := "1"
 			if rc.Tier == "thorough" {
-				ma = "4"
+				ma = "3"
 			}
 			for _, c := range names {
-				js = append(js, JobSpec{Set: "redis", Fn: "HarnessC04Reply", Params: p("cmd", c, "maxargs", ma, "maxlen", "1", "boundary", "1"), Split: 4})
+				js = append(js, JobSpec{Set: "redis", Fn: "HarnessC04Reply", Params: p("cmd", c, "maxargs", ma, "maxlen", "1", "boundary", "1", "plainresults", "1"), Split: 4, Timeout: 15 * time.Minute})
 			}
 			js = append(js, JobSpec{Set: "redis", Fn: "HarnessC04Raw", Params: p()})
 			js = append(js, JobSpec{Set: "redis", Fn: "HarnessC07Stream", Params: p("L", map[string]string{"quick": "6", "thorough": "8"}[rc.Tier]), Split: 5})
+			sa, fb, md, me := "1", "1", "1", "2"
+			if rc.Tier == "thorough" {
+				sa, fb, md, me = "3", "0", "2", "3"
+			}
 			for _, c := range names {
-				js = append(js, JobSpec{Set: "server", Fn: "HarnessC07Store", Params: p("cmd", c), Split: 4})
+				js = append(js, JobSpec{Set: "server", Fn: "HarnessC07Store", Params: p("cmd", c, "maxargs", sa, "maxelems", me, "fixednow", "1"), Split: 4})
+			}
+			for _, t := range []string{"LRANGE", "LINDEX", "LPOP", "RPOP", "GETRANGE", "SUBSTR", "ZRANGE", "ZRANGE-REV", "ZRANGE-LIMIT", "ZRANGE-BYSCORE", "ZREVRANGE", "ZRANGEBYSCORE", "ZREVRANGEBYSCORE", "SCAN", "SETEX", "EXPIRE", "INCRBY", "DECRBY", "SELECT"} {
+				js = append(js, JobSpec{Set: "server", Fn: "HarnessC07Index", Params: p("tmpl", t, "maxelems", me, "fixednow", "1", "fewbounds", fb, "maxdigits", md), Split: 5, Timeout: 15 * time.Minute})
 			}
 			return js
 		},
 		UnwindIsFinding: true,
-		RequiredCovers:  map[string][]string{"HarnessC04Reply": {"end"}, "HarnessC07Stream": {"end"}, "HarnessC07Store": {"end"}},
+		RequiredCovers:  map[string][]string{"HarnessC04Reply": {"end"}, "HarnessC07Stream": {"end"}, "HarnessC07Store": {"end"}, "HarnessC07Index": {"end"}},
 		Bounds: func(tier string) map[string]interface{} {
-			return map[string]interface{}{"framework": "every registered command x <=3 (thorough 4) arguments, each any 0..1-byte string or one of 15 boundary integer tokens (0, +-1, +-2^31, 2^63-2, 2^63-1, -2^63, out-of-range, fractional), handler returning any of 14 result shapes", "byte_streams": "every byte string up to 6 (thorough 8) bytes through the connection loop", "example_store": "every command against a symbolic pre-state (two keys, each absent/string/list/set/zset/hash of <=3 elements) with boundary and symbolic indices, counts and LIMITs"}
+			return map[string]interface{}{"framework": "every registered command x <=1 (thorough 3) arguments, each any 0..1-byte string or one of 15 boundary integer tokens (0, +-1, +-2^31, 2^63-2, 2^63-1, -2^63, out-of-range, fractional), handler returning any of 7 result shapes (the 14-shape space incl. nil results is C04)", "byte_streams": "every byte string up to 6 (thorough 8) bytes through the connection loop", "example_store": "every command with <=1 (thorough 3) loose arguments, and 19 index/count/LIMIT templates (LRANGE, LINDEX, LPOP, RPOP, GETRANGE, SUBSTR, ZRANGE incl. REV/LIMIT/BYSCORE, ZREVRANGE, Z(REV)RANGEBYSCORE LIMIT, SCAN COUNT, SETEX, EXPIRE, INCRBY, DECRBY, SELECT) whose integers are 6 (thorough 15) boundary tokens or sign + 1 (thorough 2) symbolic digits, against key k absent or holding a string/list/set/zset/hash of <=2 (thorough 3) symbolic elements; clock concrete"}
 		},
 		Assumptions: append(append([]string{
 			"reduction: an unrecovered panic, fatal error or attacker-sized allocation in the connection goroutine terminates the process and with it every client; cross-connection interference through shared state is C13/C14/C16",
@@ -346,5 +354,31 @@ func init() {
 		},
 		Assumptions: append(append([]string{"goroutines are scheduled by the engine at Read calls of the scripted connections and at every mutex / sync.Map / atomic operation; preemption between two plain memory accesses is outside the bound (data races are C14)"}, connLoopAssumptions...), commonAssumptions...),
 		Outside:     []string{"more than two connections, more context switches"},
+	})
+}
+
+func init() {
+	register(&Prop{
+		ID: "C12",
+		Jobs: func(rc *RunCtx) []JobSpec {
+			var js []JobSpec
+			ml, mm := "4", "4"
+			if rc.Tier == "thorough" {
+				ml, mm = "6", "5"
+			}
+			for _, f := range []string{"getrange", "counter", "string", "multi", "hash", "set", "zrev", "zrevscore", "system"} {
+				js = append(js, JobSpec{Set: "redis", Fn: "HarnessC12Derived", Params: p("family", f, "maxlen", ml, "maxmembers", mm), Split: 5})
+			}
+			return js
+		},
+		RequiredCovers: map[string][]string{"HarnessC12Derived": {"end", "non-empty-range", "boundary", "overflow", "non-integer", "msetnx-refused"}},
+		Bounds: func(tier string) map[string]interface{} {
+			return map[string]interface{}{"getrange": "value length 0..4 (thorough 6), all byte values; start/end: sign + 1..2 symbolic digits and 8 boundary integers; missing key", "counters": "stored value absent / sign + 1..2 symbolic digits / any 1..2-byte non-integer; increment symbolic or int64 boundary", "zrevrange": "0..4 (thorough 5) members, start/stop sign + 1..2 symbolic digits, with and without scores", "zrevrangebyscore": "0..3 members, 11 bound tokens each side incl. exclusive and infinities", "multi_key": "MSET/MSETNX/MGET over keys {a,b,c} with duplicates and every present/absent combination; map iteration order enumerated", "hash": "0..2 fields; HEXISTS HSTRLEN HLEN HKEYS HVALS HMGET HMSET", "system": "PING, PING msg, ECHO, CONFIG SET/GET over 2 keys"}
+		},
+		Assumptions: append(append([]string{
+			"the handler is the harness's reference store whose primitive operations (Get, Set incl. NX, HGet, HSet, HGetAll, SMembers, ZRange, ZRangeByScore) follow Redis",
+			"PING with an explicitly empty argument is not distinguished from PING without argument (the SystemCommandHandler signature cannot express it): known finding when it shows up",
+		}, connLoopAssumptions...), commonAssumptions...),
+		Outside: []string{"LIMIT on ZREVRANGEBYSCORE", "values and indices beyond the bounds"},
 	})
 }
